@@ -56,7 +56,7 @@ PROPS = {
                         "operations are atomic (one RwLock around MempoolInner); the CheckTx service's separate status-lookup and insert are not modelled",
                         "nonces below u32::MAX (insert panics on checked_add(1) at u32::MAX); removal cache bound 50 000 modelled and proved "
                         "about but not reached by the harness; state-read errors in run_maintenance (`continue`) not modelled",
-                        "KNOWN OPEN FINDING F12: a demotion that fails inside run_maintenance loses the transaction silently; theorems "
+                        "FIXED FINDING F13 (fix: commit in known_findings.json): a demotion that fails inside run_maintenance loses the transaction silently; theorems "
                         "C13_no_silent_loss_partial / _counterexample / _fixed state exactly what holds"],
         "explanation": "invariant (container order, one-place counts, nonce-gap, affordability, parked limits, ledger of accepted ids) proved "
                        "by induction over all valid operation sequences; builder-queue order by sortedness of the priority sort; post-condition "
@@ -78,7 +78,7 @@ TEXT = {
                 "drives the real Mempool with signed transactions of all four action groups, diffs its complete private state and query answers "
                 "with the model after each op and evaluates the same spec on the implementation's own values.",
         "design_ref": "DESIGN.md §6 C13",
-        "note": "Trusted: Lean kernel, hand-written model, harness/driver, paused tokio clock, cnidarium StateDelta. Open finding F12 (silent "
+        "note": "Trusted: Lean kernel, hand-written model, harness/driver, paused tokio clock, cnidarium StateDelta. Fixed finding F13 (silent "
                 "loss on failed demotion) is reported as KNOWN-FINDING; any other loss is a VIOLATION. Service-level interleaving (separate lock "
                 "acquisitions in CheckTx) not modelled.",
         "technique": "Lean 4 proof (inductive invariant over operation sequences) + differential correspondence on full state dumps + "
@@ -86,20 +86,4 @@ TEXT = {
     },
 }
 
-KNOWN_FINDINGS = [
-    {
-        "property": "C13",
-        "status": "open",
-        "id": "F12",
-        "what": "run_maintenance: when a ready transaction must be demoted (balance dropped / re-costed) and parked.add refuses it "
-                "(parked container at parked_max_tx_count, account at MAX_PARKED_TXS_PER_ACCOUNT, or nonce already parked) the id is removed "
-                "from contained_txs without a removal-cache entry: transaction_status -> None, CometBFT is never told to evict it "
-                "(mempool/mod.rs:582-596; same pattern for a failed promotion at 565-579, unreachable). Which account loses depends on HashSet order.",
-        "match": {
-            "monitor": "no_silent_loss",
-            "line_regex": r"^mempool maintain .*failed demotion/promotion in run_maintenance",
-        },
-        "replay": "corpus/mempool.ops (sessions A, B, C)",
-        "proposed_fix": "proposed_fixes/C13.diff",
-    },
-]
+# finding F13 (silent loss on a failed demotion in run_maintenance) was repaired; see /verif/known_findings.json
